@@ -53,7 +53,7 @@ SEPS = [None, None, ",", ";", "|"]
 def make_cells(rng, recs, d, n, hostile):
     allu = [u for r in recs for u in spec.all_u(r)]
     allp = [p for r in recs for p in spec.all_p(r)]
-    pool = [u + rng.choice(["1", "x/y", ""]) for u in allu] + [p + d + rng.choice(["1", "0002", ""]) for p in allp]
+    pool = [u + rng.choice(["1", "x/y", ""]) for u in allu] + [p + d + rng.choice(["1", "0002", "", "no!", p + d + "7"]) for p in allp]
     bad = ["zz" + d + "1", "nodelim", "", "http://nope/1", d]
     cells = []
     for _ in range(n):
@@ -98,6 +98,10 @@ def run_case(ctx, g, rng):
     def fresh():
         # every bulk call gets a converter of its own, often registered record by record or grown through merges and
         # sometimes built with the monitors off: whatever the scalar methods do on first use happens inside the bulk call
+        if rng.random() < 0.12:
+            # a user subclass overriding the documented hook: scalar and bulk must still agree cell by cell
+            S.counters["wl:build:hooked-subclass"] += 1
+            return gen.hooked_subclass(api)([gen.mk_record(api, r) for r in recs], delimiter=d)
         c, how = gen.build(api, recs, d, rng)
         S.counters[f"wl:build:{how}"] += 1
         return c
